@@ -85,8 +85,10 @@ pub fn reads(run: &Run) -> Vec<(K, Option<V>, u64, u64, String)> {
         match (&c.op, &c.res) {
             (Op::Read { k, .. }, Res::Read(v)) => out.push((*k, *v, c.inv, c.ret, c.short())),
             (Op::MultiRead { keys, .. }, Res::MultiRead(vs)) => {
-                for (k, v) in keys.iter().zip(vs.iter()) {
-                    out.push((*k, *v, c.inv, c.ret, c.short()));
+                for (i, (k, v)) in keys.iter().zip(vs.iter()).enumerate() {
+                    // a lazy iterator's elements are separate reads with their own intervals
+                    let (a, b) = c.elems.get(i).copied().unwrap_or((c.inv, c.ret));
+                    out.push((*k, *v, a, b, if c.elems.is_empty() { c.short() } else { format!("{} element #{} [{}..{}]", c.short(), i, a, b) }));
                 }
             }
             (Op::ReadAll { keys }, Res::MultiRead(vs)) => {
